@@ -167,7 +167,12 @@ func runUnit(c *Check, ctx *Ctx, u Unit) (r *Result) {
 			buf := make([]byte, 8192)
 			n := runtime.Stack(buf, false)
 			st := string(buf[:n])
-			if implFrames(st) {
+			if msg := fmt.Sprint(e); strings.HasPrefix(msg, "verif: seam unavailable") {
+				// an export wrapper no longer fits the edited tree: the sub-check that needs it cannot run
+				r.Note("seam_unavailable", msg)
+				r.Exhaustive = false
+				r.Caps = append(r.Caps, msg+" (unit ended early)")
+			} else if implFrames(st) {
 				// the panic crossed frames of the implementation: no valid call may panic
 				r.Violate(Violation{Check: strings.ToLower(c.ID) + ".panic", API: "see stack", Input: "unit " + u.Name, Expected: "no panic", Got: fmt.Sprintf("panic: %v\n%s", e, st)})
 				r.Exhaustive = false
